@@ -1435,6 +1435,141 @@ func randRawDocument(r *rng.R) string {
 	return "{" + strings.Join(docs, ",") + "}" + rng.Pick(r, []string{"", "", "", "\n", "x"})
 }
 
+// ------------------------------------------------------------------------------------------------
+// NewSchema: schema definitions and whether they are accepted
+// ------------------------------------------------------------------------------------------------
+
+type attrDef struct {
+	Name        string
+	HasResolver bool
+}
+
+// Kind: 0 Resolver == nil, 1 to-one with Resolve, 2 to-many with Resolve, 3 to-one without, 4 to-many without, 5 custom
+type relDefSpec struct {
+	Name string
+	Kind int
+}
+
+type typeDef struct {
+	Name  string
+	Attrs []attrDef
+	Rels  []relDefSpec
+}
+
+var schemaNames = []string{"things", "a", "A9", "9", "a-b", "a_b", "a-", "-a", "_a", "a_", "-", "_", "", "id", "type", "ID", "Type", "ids", "data",
+	"relationships", "a b", " a", "a.b", "a/b", "a[b]", "é", "aé", "éa", "a\x00", "a\xff", "x-y_z-9", "a--b", "a__b", "0-0", "type ", "Id"}
+
+func (d typeDef) sexp() sexp.Node {
+	var as, rs []sexp.Node
+	for _, a := range d.Attrs {
+		as = append(as, sexp.L(sexp.Str(a.Name), sexp.Bool(a.HasResolver)))
+	}
+	for _, r := range d.Rels {
+		kind := []string{"nil", "lib", "lib", "lib-no-resolve", "lib-no-resolve", "custom"}[r.Kind]
+		rs = append(rs, sexp.L(sexp.Str(r.Name), sexp.Sym(kind)))
+	}
+	return sexp.T("td", sexp.Str(d.Name), sexp.L(as...), sexp.L(rs...))
+}
+
+// name at one position (type, attribute, relationship, attribute and relationship) of an otherwise fine definition
+func namedDef(name string, pos int) []typeDef {
+	d := typeDef{Name: "things", Attrs: []attrDef{{"title", true}}, Rels: []relDefSpec{{"author", 1}}}
+	switch pos {
+	case 0:
+		d.Name = name
+	case 1:
+		d.Attrs = append(d.Attrs, attrDef{name, true})
+	case 2:
+		d.Rels = append(d.Rels, relDefSpec{name, 2})
+	default:
+		d.Attrs = append(d.Attrs, attrDef{name, true})
+		d.Rels = append(d.Rels, relDefSpec{name, 5})
+	}
+	return []typeDef{d, {Name: "others"}}
+}
+
+func randDef(r *rng.R) []typeDef {
+	good := []string{"things", "others", "title", "author", "tags", "a", "b-2", "Cc", "x_y", "n9"}
+	name := func() string {
+		if r.Chance(1, 8) {
+			return rng.Pick(r, schemaNames)
+		}
+		return rng.Pick(r, good)
+	}
+	var out []typeDef
+	usedTypes := map[string]bool{}
+	for n := r.Range(1, 3); n > 0; n-- {
+		d := typeDef{Name: name()}
+		if usedTypes[d.Name] {
+			continue
+		}
+		usedTypes[d.Name] = true
+		usedA, usedR := map[string]bool{}, map[string]bool{}
+		for k := r.Intn(4); k > 0; k-- {
+			a := attrDef{name(), !r.Chance(1, 12)}
+			if !usedA[a.Name] {
+				usedA[a.Name] = true
+				d.Attrs = append(d.Attrs, a)
+			}
+		}
+		for k := r.Intn(4); k > 0; k-- {
+			rel := relDefSpec{name(), rng.Pick(r, []int{1, 1, 2, 2, 5, 5, 0, 3, 4})}
+			if r.Chance(3, 4) && usedA[rel.Name] {
+				continue // an attribute of the same name: mostly avoided
+			}
+			if !usedR[rel.Name] {
+				usedR[rel.Name] = true
+				d.Rels = append(d.Rels, rel)
+			}
+		}
+		out = append(out, d)
+	}
+	return out
+}
+
+func runNewSchema(defs []typeDef) sexp.Node {
+	def := &jsonapi.SchemaDefinition{ResourceTypes: map[string]jsonapi.AnyResourceType{}}
+	var nodes []sexp.Node
+	for _, d := range defs {
+		nodes = append(nodes, d.sexp())
+		rt := jsonapi.ResourceType[*res]{}
+		if len(d.Attrs) > 0 {
+			rt.Attributes = map[string]*jsonapi.AttributeDefinition[*res]{}
+			for _, a := range d.Attrs {
+				ad := &jsonapi.AttributeDefinition[*res]{}
+				if a.HasResolver {
+					ad.Resolver = attrResolver{}
+				}
+				rt.Attributes[a.Name] = ad
+			}
+		}
+		if len(d.Rels) > 0 {
+			rt.Relationships = map[string]*jsonapi.RelationshipDefinition[*res]{}
+			one := func(ctx context.Context, x *res) (*types.ResourceId, *types.Error) { return nil, nil }
+			many := func(ctx context.Context, x *res) ([]types.ResourceId, *types.Error) { return nil, nil }
+			for _, rel := range d.Rels {
+				rd := &jsonapi.RelationshipDefinition[*res]{}
+				switch rel.Kind {
+				case 1:
+					rd.Resolver = jsonapi.ToOneRelationshipResolver[*res]{Resolve: one}
+				case 2:
+					rd.Resolver = jsonapi.ToManyRelationshipResolver[*res]{Resolve: many}
+				case 3:
+					rd.Resolver = jsonapi.ToOneRelationshipResolver[*res]{ResolveByDefault: true}
+				case 4:
+					rd.Resolver = jsonapi.ToManyRelationshipResolver[*res]{}
+				case 5:
+					rd.Resolver = customResolver{&customSpec{}, newMapPool(), &recorder{}}
+				}
+				rt.Relationships[rel.Name] = rd
+			}
+		}
+		def.ResourceTypes[d.Name] = rt
+	}
+	_, err := jsonapi.NewSchema(def)
+	return sexp.T("case", sexp.T("newschema", nodes...), sexp.T("accepted", sexp.Bool(err == nil)))
+}
+
 func thingDoc(id string) body {
 	return treeBody(jobj(f("data", jobj(f("type", jstr("things")), f("id", jstr(id))))))
 }
@@ -2022,6 +2157,30 @@ func main() {
 			h.Case(func(r *rng.R) sexp.Node { return runCase(r, specs, rq) })
 		}
 
+		// 0a. NewSchema itself: schema definitions with every kind of name and resolver, accepted or not
+		for _, name := range schemaNames {
+			for pos := 0; pos < 4; pos++ {
+				name, pos := name, pos
+				h.Case(func(r *rng.R) sexp.Node { return runNewSchema(namedDef(name, pos)) })
+			}
+		}
+		for kind := 0; kind < 6; kind++ {
+			kind := kind
+			h.Case(func(r *rng.R) sexp.Node {
+				return runNewSchema([]typeDef{{Name: "things", Attrs: []attrDef{{"a", true}}, Rels: []relDefSpec{{"r", kind}}}})
+			})
+		}
+		h.Case(func(r *rng.R) sexp.Node {
+			return runNewSchema([]typeDef{{Name: "things", Attrs: []attrDef{{"a", false}}}})
+		})
+		h.Case(func(r *rng.R) sexp.Node { return runNewSchema(nil) })
+		nsd := 1500
+		if h.Thorough() {
+			nsd = 40000
+		}
+		for i := 0; i < nsd; i++ {
+			h.Case(func(r *rng.R) sexp.Node { return runNewSchema(randDef(r)) })
+		}
 		// 0. schemas NewSchema must refuse: library resolvers without a Resolve function (calling them
 		// would panic at request time); a refusal that is missing is reported as a harness panic
 		h.Case(func(r *rng.R) sexp.Node {
